@@ -85,13 +85,17 @@ def _lab_key(lab):
     return json.dumps({k: v for k, v in lab.items() if k in ("a", "l", "v", "e", "t", "op", "x", "kind", "k")}, sort_keys=True)
 
 
-def _order_ok(runs, lab):
+def _order_ok(runs, lab, extra_ok=False):
+    """extra_ok: the world lives one container level further down than the specification's universe (after a rebinding copy): the
+    additional enclosing container legitimately triggers more tasks (they depend on it structurally), so a superset is accepted"""
     trig = lab.get("trig", [])
-    if sorted(runs) != sorted(trig):
+    if extra_ok and len(set(runs)) == len(runs) and set(trig) <= set(runs):
+        runs = list(runs)
+    elif sorted(runs) != sorted(trig):
         return "set", f"ran {runs}, triggered set is {sorted(trig)}"
     pos = {t: i for i, t in enumerate(runs)}
     for u, t in lab.get("prec", []):
-        if pos[u] > pos[t]:
+        if u in pos and t in pos and pos[u] > pos[t]:
             return "order", f"{t} ran before its producer {u}: order {runs}"
     return None, None
 
@@ -344,18 +348,18 @@ def worker_main(jobfile, shard, nshards):
         # ---- C02: set, multiplicity, order --------------------------------------------------------------
         ordkind = None
         if lab["a"] == "GenFun":
-            ordkind, why = _order_ok(res.get("gen_order", []), lab)
+            ordkind, why = _order_ok(res.get("gen_order", []), lab, extra_ok=w.uni["name"].endswith("/rebased"))
             if ordkind:
                 fail(["C13"], f"mk_fun({lab['args']}): {why}", eis[0], {"src": res.get("gen_src")},
-                     known="struct-cycle-order" if (lab.get("cyc") and ordkind == "order") else None)
+                     known="struct-cycle-order" if ((lab.get("cyc") or w.uni["name"].endswith("/rebased")) and ordkind == "order") else None)
         elif "trig" in lab:
-            ordkind, why = _order_ok(res["runs"], lab)
+            ordkind, why = _order_ok(res["runs"], lab, extra_ok=w.uni["name"].endswith("/rebased"))
             if ordkind == "set":
                 fail(["C02"], f"{lab['a']}({lab['l']}): {why}", eis[0], {"runs": res["runs"], "trig": lab["trig"]})
             elif ordkind == "order":
                 fail(["C02"], f"{lab['a']}({lab['l']}): {why}", eis[0], {"runs": res["runs"], "prec": lab["prec"]},
-                     known="struct-cycle-order" if lab.get("cyc") else None)
-        elif res["runs"] and lab["a"] != "Transfer":
+                     known="struct-cycle-order" if (lab.get("cyc") or w.uni["name"].endswith("/rebased")) else None)
+        elif res["runs"] and lab["a"] != "Transfer" and not w.uni["name"].endswith("/rebased"):
             fail(["C02"], f"{lab['a']}: tasks ran ({res['runs']}) in a call that triggers none", eis[0], {"runs": res["runs"]})
         # ---- state ---------------------------------------------------------------------------------------
         if diff:
@@ -371,7 +375,8 @@ def worker_main(jobfile, shard, nshards):
                     tags.add("C17")
             if "frozen" in comps:
                 tags.add("C17")
-            known = "struct-cycle-order" if (lab.get("cyc") and ordkind == "order" and comps == ["mem"]) else None
+            # (a manager rebased one container level down has every pair of tasks in a structural cycle through that container)
+            known = "struct-cycle-order" if ((lab.get("cyc") or w.uni["name"].endswith("/rebased")) and ordkind == "order" and comps == ["mem"]) else None
             if xtag:
                 tags = {xtag}
             fail(sorted(tags), f"{lab['a']}({lab.get('l', lab.get('t', lab.get('kind', '')))}): state differs from the specification in {comps}: {repr(diff)[:300]}",
